@@ -386,6 +386,8 @@ def run_binary(F, s1, s2, m1, m2, pairings, seed):
                     res = op(a, b)
             except Exception as e:
                 F.check("C03", f"defined/{tag}", False, f"{type(e).__name__}: {str(e)[:160]}")
+                # C05: the object form of this call returns a vector / number, so the rules give this call a result backend, flavor and dimension
+                F.check("C05", f"defined/{tag}", False, f"{type(e).__name__}: {str(e)[:160]}")
                 continue
             F.check("C16", f"operands-unchanged/{tag}", (AR.snapshot(a), AR.snapshot(b)) == snaps, "an operand was modified by the call")
             compare(F, tag, res, expected, name, True)
@@ -469,6 +471,26 @@ def probes():
         probe("C18", "record-operators/eq", lambda: bool(rec == rec) is True and bool(rec != rec) is False)
         probe("C18", "record-operators/abs-and-power", lambda: AR.close(abs(rec), rec.rho) and AR.close(rec ** 2, rec.rho2) and AR.close(np.sqrt(rec), rec.rho ** 0.5))
         probe("C03", "tau-stored-object-boosted-by-awkward-booster", lambda: AR.close(ak.to_list(o4.boost_p4(a4).t), [[o4.boost_p4(vector.obj(x=1.0, y=2.0, z=3.0, t=10.0)).t], []]))
+    # rotate_axis: the axis is a parameter.  An object vector rotated about an *array of axes* (NumPy / Awkward - a higher-priority backend kept out of the
+    # pairing lattice) is the object vector's own kind of result: element i equals the rotation about axis i, the stored t / tau is kept
+    axes = [dict(x=0.0, y=0.0, z=1.0), dict(x=1.0, y=0.5, z=-2.0), dict(x=-1.0, y=2.0, z=0.25)]
+    ax_makers = [("numpy", lambda: vector.array({k: np.array([a[k] for a in axes]) for k in "xyz"}))]
+    if ak is not None:
+        ax_makers.append(("awkward", lambda: vector.Array(axes)))
+    subjects = [("xyz", vector.obj(x=1.0, y=-2.0, z=3.0), ()), ("xyzt", vector.obj(x=1.0, y=-2.0, z=3.0, t=10.0), ("t",)),
+                ("ptphietamass", vector.obj(pt=2.0, phi=0.4, eta=-0.3, mass=1.5), ("tau",)), ("rhophithetatau", vector.obj(rho=2.0, phi=-1.1, theta=0.8, tau=0.5), ("tau",))]
+    for bname, mk in ax_makers:
+        for sname, o, keep in subjects:
+            def f(o=o, mk=mk, keep=keep):
+                r = o.rotate_axis(mk(), 0.7)
+                ok = isinstance(r, vector.Momentum) == isinstance(o, vector.Momentum) and all(hasattr(r, k) and AR.close(AR.to_nested(getattr(r, k)), getattr(o, k)) for k in keep) and \
+                    (len(keep) == 1) == hasattr(r, "t")
+                for i, a in enumerate(axes):
+                    e = o.rotate_axis(vector.obj(**a), 0.7)
+                    ok = ok and all(AR.close(AR.to_nested(getattr(r, c))[i], getattr(e, c), 1e-9, 1e-9) for c in ("x", "y", "z"))
+                return ok
+            for _p in ("C03", "C05", "C10"):
+                probe(_p, f"rotate_axis/object({sname})-about-{bname}-axes-keeps-dimension-and-time", f)
     # integer- / float32-typed array operands paired with an object: same result as with float64 columns of the same values
     # (a scalar that a kernel passes through from the object must keep its value whatever the dtype of the array's columns)
     o_tau = vector.obj(px=1.0, py=-2.0, pz=3.0, mass=0.75)
